@@ -754,6 +754,25 @@ def run(ctx):
         p = r.choice(products)
         v, pa = gen_version(r, p)
         servers.append((p, v, pa))
+    # systematically: every first-appeared version of the database, its neighbours in the last component, the same with a component dropped or a .0 appended
+    seen_srv = set(servers)
+    for p, v in db_versions():
+        if p not in PATCHES:
+            continue
+        comps = [int(x) for x in v.split('.')]
+        cands = [comps, comps[:-1] + [comps[-1] + 1], comps + [0], comps + [1]]
+        if comps[-1] > 0:
+            cands.append(comps[:-1] + [comps[-1] - 1])
+        if len(comps) > 1:
+            cands += [comps[:-1], comps[:-1] + [0] if comps[-1] else comps[:-1]]
+        for c in cands:
+            if not c:
+                continue
+            sv = '.'.join(str(x) for x in c)
+            for pa in ([''] if p == LIBSSH else ['', r.choice(PATCHES[p][1:])]):
+                if (p, sv, pa) not in seen_srv:
+                    seen_srv.add((p, sv, pa))
+                    servers.append((p, sv, pa))
     for p, v, pa in servers:
         for fs in (True, False):
             add({'check': 'available', 'product': p, 'version': v, 'patch': pa, 'for_server': fs}, True, ['availability-sweep', p])
